@@ -95,6 +95,24 @@ def expectedSections : List (Str × List Str × List Str) :=
     both "_check_reference_locked_pids".toList (checkText (listOf .refPid) "pid".toList),
     both "_release_reference_locked_pids".toList (releaseOf .refPid "pid".toList) ]
 
+/-- the claims of identifiers in the source outside the acquire methods: (function, class), in
+    source order. `tag_object` claims through `_store_hashstore_refs_files`, `delete_if_invalid_object`
+    through `_delete_object_only`; `delete_object` claims the cid on its normal path and on its
+    missing-object path. These are the acquires of `Calls.lean`. -/
+def expectedSites : List (Str × LockClass) :=
+  [ ("store_object".toList, .objPid), ("store_metadata".toList, .doc),
+    ("delete_object".toList, .objPid), ("delete_object".toList, .cid), ("delete_object".toList, .cid),
+    ("delete_metadata".toList, .doc), ("delete_metadata".toList, .doc),
+    ("_store_hashstore_refs_files".toList, .refPid), ("_store_hashstore_refs_files".toList, .cid),
+    ("_delete_object_only".toList, .cid) ]
+
+/-- a claim is released on every exit: by the `finally` of a `try` it lies in, or of the `try`
+    that is the very next statement -/
+def siteGuarded (s : Str × Str × Str × Str) : Bool :=
+  s.2.2.2 = "finally-of-enclosing-try".toList ∨ s.2.2.2 = "finally-of-next-try".toList
+
+def siteKey (s : Str × Str × Str × Str) : Str × Option LockClass := (s.1, classOfList s.2.1)
+
 /-- an edge of the source's lock-order relation goes up in rank -/
 def edgeAscends (e : Str × Str) : Bool :=
   match classOfList e.1, classOfList e.2 with
